@@ -15,7 +15,8 @@ import (
 // makes the client panic.
 
 type c05Scenario struct {
-	AfterReconnect  bool       `json:"after_reconnect,omitempty"`                           // the session under test was re-established by Resume after an earlier loss
+	AfterReconnect  bool       `json:"after_reconnect,omitempty"` // the session under test was re-established by Resume after an earlier loss
+	DisconnectFirst bool       `json:"application_disconnects_and_the_server_sends_the_sequence_before_its_closing_tag,omitempty"`
 	GracefulEnd     bool       `json:"server_ends_the_stream_after_the_sequence,omitempty"` // </stream:stream> follows the last element at once; the server keeps reading
 	LossWhilePaused bool       `json:"connection_lost_while_answers_wait,omitempty"`        // with backpressure_window: the connection is lost while answers to <r/> still wait for their turn; the application then resumes
 	BackPressure    int        `json:"backpressure_window,omitempty"`                       // >0: both receive windows are this small and the server stops reading while it sends
@@ -136,8 +137,15 @@ func runC05(e *Engine, g G, o RunOpt) RunInfo {
 		// before is received like anything else, and its requests are answered
 		sc.GracefulEnd = true
 	}
+	if !sc.Cut && !sc.WebSocket && !sc.Component && sc.BackPressure == 0 && !sc.GracefulEnd && g.Pct("disconnect-first", 12) {
+		// The application calls Disconnect(); the server answers the closing tag with the whole sequence
+		// and only then with its own closing tag. A stream is closed when both tags are exchanged: what
+		// the server sends before its tag is received and routed like anything else.
+		sc.DisconnectFirst = true
+	}
 
 	var handled *[]Handled
+	farewellSent := false
 	var panicsBefore int
 	established := false
 	var base, readAtEnd int64
@@ -308,7 +316,14 @@ func runC05(e *Engine, g G, o RunOpt) RunInfo {
 			all.WriteString("</stream:stream>")
 			e.Probe("c05.server_ends_the_stream_after_the_sequence")
 		}
-		conn.SendChunks(all.String(), sc.Chunk)
+		if sc.DisconnectFirst {
+			conn.Farewell = all.String()
+			e.Call("Disconnect", sender.(*xmpp.Client).Disconnect)
+			farewellSent = conn.FarewellSent
+			e.Probe("c05.disconnect_then_the_server_sends")
+		} else {
+			conn.SendChunks(all.String(), sc.Chunk)
+		}
 		if sc.LossWhilePaused && cw != nil && !sc.Cut {
 			// the connection is lost while the peer still does not read: answers to the <r/> of the
 			// burst are waiting for their turn to be written. The application resumes; nothing that
@@ -386,6 +401,11 @@ func runC05(e *Engine, g G, o RunOpt) RunInfo {
 	for _, p := range e.Panics[panicsBefore:] {
 		e.Violate("C05", "panic:"+panicSite(p), "%s: %s\n%s", p.Where, p.Value, clip(p.Stack, 1800))
 	}
+	if sc.DisconnectFirst && farewellSent {
+		// sent at once in answer to the closing tag, well within the time Disconnect waits for the
+		// server's tag: all of it is to be received
+		readAtEnd = base + total
+	}
 	got := map[string]int{}
 	var order []string
 	for _, h := range *handled {
@@ -440,7 +460,7 @@ func runC05(e *Engine, g G, o RunOpt) RunInfo {
 			}
 		}
 	}
-	if !sc.Component && !sc.Cut && !sc.LossWhilePaused {
+	if !sc.Component && !sc.Cut && !sc.LossWhilePaused && !sc.DisconnectFirst {
 		if answered != rs {
 			e.Violate("C05", fmt.Sprintf("r-answered-%s", cmp3(answered, rs)), "server sent %d <r/>, received %d <a/>", rs, answered)
 		}
